@@ -13,6 +13,15 @@ def _depth_jobs(c, harness, ND, modes, D=3):
             c.add(Job(harness, [('bytes', 'd', n), ('int', m)], weight=3 ** n, opts={'scale_depth': D}))
 
 
+NUMBER_TEMPLATES = [[('D', 1), b'.', 9], [b'[', ('D', 1), b'.', 8, b']'], [b'-', ('D', 2), b'e', 7], [b'{"":', ('D', 1), b'.', ('D', 1), 6, b'}']]
+
+
+def _number_jobs(c, harness):
+    for t in NUMBER_TEMPLATES:
+        t = [((x[1], 'digit') if isinstance(x, tuple) else x) for x in t]
+        c.add(Job(harness, [('tmpl', 'd', t), ('int', 0)], weight=3 ** 8))
+
+
 def _machine_jobs(c, harness, N, modes, sym='d', split_from=8):
     for n in range(0, N + 1):
         for m in modes:
@@ -32,6 +41,7 @@ def check_C01(tier, nproc=None):
     N = 7 if tier == 'quick' else 10
     modes = BUFMODES_QUICK if tier == 'quick' else BUFMODES_THOROUGH
     _machine_jobs(c, 'vH_C01', N, modes)
+    _number_jobs(c, 'vH_C01')
     ND = 8 if tier == "quick" else 10
     _depth_jobs(c, 'vH_C01', ND, [0, 4, 14])
     c.bounds = {'N': N, 'buffer_modes': modes, 'meaning': 'every byte string of length <= N; Buffer nil / fresh / used with arbitrary contents',
@@ -51,6 +61,7 @@ def check_C02(tier, nproc=None):
     N = 7 if tier == 'quick' else 10
     modes = BUFMODES_QUICK if tier == 'quick' else BUFMODES_THOROUGH
     _machine_jobs(c, 'vH_C02', N, modes)
+    _number_jobs(c, 'vH_C02')
     ND = 8 if tier == "quick" else 10
     _depth_jobs(c, 'vH_C02', ND, [0, 4, 14])
     c.bounds = {'N': N, 'buffer_modes': modes, 'depth_limit': 'all strings <= %d with the limit scaled to 3' % ND}
@@ -180,7 +191,10 @@ def check_C14(tier, nproc=None):
             for inner in range(5):
                 for m in ([1, 4] if tier == 'quick' else [1, 2, 4]):
                     c.add(Job('vH_C14_reentrant', [('bytes', 'd', n), ('int', outer), ('int', inner), ('int', m)], weight=3 ** n))
-    c.bounds = {'N': N, 'N_reentrant': NR, 'buffer_states': 'fresh, or a used stack of length 0/1/2/10 with arbitrary contents'}
+    for n in range(4, (8 if tier == 'quick' else 9) + 1):
+        for fn in range(3):
+            c.add(Job('vH_C14', [('bytes', 'd', n), ('int', fn), ('int', 14)], weight=3 ** n, opts={'scale_depth': 3}))
+    c.bounds = {'N': N, 'N_reentrant': NR, 'depth_limit': 'skip functions with the limit scaled to 3 and a used stack of length 12', 'buffer_states': 'fresh, or a used stack of length 0/1/2/10 with arbitrary contents'}
     c.must_reach = ['C14.compared', 'C14.reentrant-compared']
     _std(c, ['any history of calls leaves the Buffer as *some* []int; an arbitrary slice therefore covers every history (trivial induction)'])
     c.outside = ['inputs longer than N', 'stack slices longer than 10 words (the machine only reads stack[j] it wrote in the same call)']
@@ -272,10 +286,12 @@ def check_C17(tier, nproc=None):
     for n in range(0, N + 1):
         for pre, spare in ([(0, 0), (1, 2)] if tier == 'quick' else [(0, 0), (1, 0), (1, 2), (2, 4 * n)]):
             c.add(Job('vH_C17', [('bytes', 'd', n), ('int', pre), ('int', spare)], weight=6 ** n))
-    c.bounds = {'N': N}
-    c.must_reach = ['C17.compared']
+    for shape in range(4):
+        c.add(Job('vH_C17_tree', [('bytes', 'd', 5), ('int', shape)], weight=3000))
+    c.bounds = {'N': N, 'trees': '4 shapes (nested slices/maps, depth 3) with 3 symbolic strings (2+1+1 bytes) and a symbolic 1-byte key'}
+    c.must_reach = ['C17.compared', 'C17.tree']
     _std(c, ['slice/map helpers: see level_note'])
-    c.outside = ['strings longer than N bytes (every 1..4-byte sequence class is inside the bound)', 'StdLibCompatibleSlice / StdLibCompatibleMap on trees']
+    c.outside = ['strings longer than N bytes (every 1..4-byte sequence class is inside the bound)', 'trees other than the four shapes; keys that collide after replacement']
     c.run_jobs(nproc)
     c.confirm()
     return c.finish()
@@ -291,7 +307,9 @@ TREE_TEMPLATES = [
     [b'[{"', 1, b'":[', 1, b']},{"', 1, b'":', 1, b'}]'],
     [b'{"', 1, b'\\', 1, b'":"', 1, b'\\', 1, b'"}'],
     [b' [', 2, b', ', 3, b' ] '],
+    [b'{"\\u', ('hexd', 4), b'\\u', ('hexd', 4), b'":1}'],
 ]
+DEPTH_TREE_TEMPLATES = [[b'[[],[[],[[],[[]', 1, b']]]]'], [b'{"a":{},"b":[[],{"c":[', 1, b']}]}'], [b'[[[', 1, b']]]'], [b'[[[[', 1, b']]]]'], [b'[1,[2,[3,[4', 1, b']]]]']]
 
 
 def _tmplstr(t):
@@ -310,8 +328,13 @@ def check_C03(tier, nproc=None):
             else:
                 c.add(Job('vH_C03', [('bytes', 'd', n), ('int', which)], weight=4 ** n, opts=o))
         for t in TREE_TEMPLATES:
+            t = [((x[1], 'hex') if isinstance(x, tuple) and x[0] == 'hexd' else x) for x in t]
             c.add(Job('vH_C03', [('tmpl', 'd', t), ('int', which)], weight=4 ** 6, opts=o))
-    c.bounds = {'N': N, 'templates': [_tmplstr(t) for t in TREE_TEMPLATES]}
+        if which != 1:
+            for t in DEPTH_TREE_TEMPLATES:
+                c.add(Job('vH_C03', [('tmpl', 'd', t), ('int', which)], weight=4 ** 6, opts=dict(o, scale_depth=3)))
+    c.bounds = {'N': N, 'templates': [_tmplstr([((x[1], 'hex') if isinstance(x, tuple) and x[0] == 'hexd' else x) for x in t]) for t in TREE_TEMPLATES],
+                'depth_limit': 'templates %s with the limit scaled to 3' % [_tmplstr(t) for t in DEPTH_TREE_TEMPLATES]}
     c.must_reach = ['C03.returned', 'C03.success']
     _std(c, ['number leaves: fp.ParseJSONFloatPrefix replaced by the contract vFloatStub (literal delimited by the reference grammar, value and overflow verdict uninterpreted functions of the literal bytes); established by C04',
              'sync.Pool.Get returns the most recently Put reader (a fresh reader is used in this check, so the pool starts empty)',
